@@ -533,7 +533,9 @@ pub fn c12(tier: Tier) -> i32 {
                 // consistency: a statement that changed the graph cannot report "0 changes"
                 // (a no-op may legitimately report the operations it performed, e.g. SET of an
                 // existing label - that is not judged)
-                if n == 0 && eff.changed {
+                // MERGE is exempt: the repository's own tests (t323) define its count as the number of
+                // created nodes / relationships, so ON MATCH SET legitimately reports 0
+                if n == 0 && eff.changed && !matches!(s, St::MergeNode { .. } | St::MergeRel { .. } | St::MergeRelUndirected { .. }) {
                     rep.violation(mk("change_count_zero_for_change".into(), format!("{} reported 0 changes although it changed the graph", s.text())));
                 }
                 // the same statement on twin databases through execute_write and the C API
